@@ -115,7 +115,10 @@ def unit_semilocal(mode, level, nspin):
             return
         nrho = 5
         rho = sym_array("r", (nspin, nrho, NS))
-        H = [tm.mk_lt(tm.const(Q(1, 10 ** 6)), x) for x in rho[:, 0].reshape(-1)] + [tm.mk_le(tm.ZERO, x) for x in rho[:, 4].reshape(-1)]
+        # every density above the ALPHA_TOL = 1e-10 threshold of s2 / alpha (below it both are identically 0 with zero derivatives: C08; at the threshold
+        # itself the value is discontinuous and has no derivative)
+        H = [tm.mk_lt(tm.const(Q(1, 10 ** 10)), x) for x in rho[:, 0].reshape(-1)] + [tm.mk_le(tm.ZERO, x) for x in rho[:, 4].reshape(-1)]
+        ctx.assume("semilocal plan: potential = derivative proved for spin densities above ALPHA_TOL = 1e-10 (below: features and derivatives identically zero, C08; at the threshold the value jumps)")
         # physical domain (A7): tau >= tau_W = |grad rho|^2 / (8 rho)  (von Weizsaecker bound), so the clamp max(tau - tau_W, 0) in alpha is inactive
         for s_ in range(nspin):
             for g_ in range(NS):
